@@ -97,7 +97,14 @@ class AW(ls.World):
 
     def start(self):
         try:
-            super().start()
+            self.sq.start(wait_ready=False)
+            for attempt in range(5):        # an overloaded machine can exceed lockstep's 60 s start-up allowance
+                try:
+                    self.sq.wait_ready()
+                    break
+                except HarnessError as e:
+                    if 'not ready after' not in str(e) or attempt == 4:
+                        raise
             hs = self.hub.wait_helpers(1, timeout=30)
             self.helper = hs[0][1]
             self.pids.append(int(hs[0][0].split()[1]))
@@ -422,15 +429,20 @@ def jobs_for(tier):
     for s1, s2 in ttl_pairs:
         add(s1, s2, advances=1)
     # helper answers that deviate from the truth table: lookup #k flipped (OK<->ERR) or answered BH (Squid retries it)
+    # ('bhall': every lookup incl. the retries is answered BH; the retries multiply the schedules, so small scripts only)
     if tier == 'quick':
         for s1, s2 in ((['A'], ['A']), (['A', 'A'], ['W']), (['A'], ['W', 'W']), (['A', 'B'], ['B', 'A'])):
-            for pol in (('flip', 0), ('bh', 0), ('bhall',)):
+            for pol in (('flip', 0), ('bh', 0)):
                 add(s1, s2, policy=pol)
+        for s1, s2 in ((['A'], []), (['A'], ['A']), (['A'], ['W']), (['A', 'A'], [])):
+            add(s1, s2, policy=('bhall',))
     else:
         for i, s1 in enumerate(core):
             for s2 in [[]] + core[i:]:
-                for pol in (('flip', 0), ('flip', 1), ('bh', 0), ('bh', 1), ('bhall',)):
+                for pol in (('flip', 0), ('flip', 1), ('bh', 0), ('bh', 1)):
                     add(s1, s2, policy=pol)
+                if len(s1) + len(s2) <= 2:
+                    add(s1, s2, policy=('bhall',))
     for j in J:
         j['id'] = '%s|%s|%s|%d' % (''.join(j['scripts'][0]) or '-', ''.join(j['scripts'][1]) or '-',
                                    '-'.join(str(x) for x in j['policy']) if j['policy'] else 'truth', j['advances'])
@@ -568,9 +580,9 @@ def bound_text(tier):
     if tier == 'quick':
         return ('all schedules of: every unordered pair of scripts of <=2 requests over {A, W(same user, other password), B} and every script alone, truthful helper; '
                 '5 garbled/missing header kinds alone / before / after A, next to nothing, A or W; one clock jump at every point for 5 script pairs; '
-                'first lookup flipped / answered BH / all BH for 4 script pairs')
+                'first lookup flipped / answered BH for 4 script pairs, all lookups answered BH for 4 small script pairs')
     return ('all schedules of: every unordered pair of scripts of <=2 requests over {A, W, B} and every script alone with the truthful helper and with lookup #0 or #1 '
-            'flipped, lookup #0 or #1 answered BH, all answered BH; 5 garbled/missing header kinds alone, doubled, before/after A and W, next to nothing, A or W; '
+            'flipped, lookup #0 or #1 answered BH (all answered BH for pairs with <=2 requests); 5 garbled/missing header kinds alone, doubled, before/after A and W, next to nothing, A or W; '
             'one clock jump past the TTL at every point for every script pair with <=3 requests')
 
 
